@@ -1,11 +1,11 @@
 package main
 
 import (
-	"time"
 	"bytes"
 	"errors"
 	"fmt"
 	"runtime/debug"
+	"time"
 	"unsafe"
 
 	mcall "github.com/awnumar/memcall"
@@ -17,7 +17,9 @@ import (
 	"verif/harness/gen"
 )
 
-func init() { register("mem", "secure memory implementations over an interposed memcall (C11, C12)", runMem) }
+func init() {
+	register("mem", "secure memory implementations over an interposed memcall (C11, C12)", runMem)
+}
 
 // shadowMC is a memcall that IS a shadow page table: regions are ordinary Go slices, every primitive is recorded with
 // its outcome and with whether the region still held non-zero bytes, faults are injected by call index.
@@ -72,6 +74,19 @@ func (m *shadowMC) reg(b []byte) *region {
 		return r
 	}
 	return m.last
+}
+
+// adopt registers a region the implementation allocated and locked by itself (memguard's buffers do not come from the interposed
+// memcall: only their protection changes and the clean-up after a failed creation go through it).
+func (m *shadowMC) adopt(b []byte) {
+	if m.pattern == nil || len(b) == 0 {
+		return
+	}
+	if _, ok := m.regions[uintptr(unsafe.Pointer(&b[0]))]; !ok {
+		r := &region{buf: b, mapped: true, locked: true, prot: 2}
+		m.regions[uintptr(unsafe.Pointer(&b[0]))] = r
+		m.last = r
+	}
 }
 
 var errInjected = errors.New("injected memcall fault")
@@ -140,6 +155,7 @@ func protCode(f mcall.MemoryProtectionFlag) int {
 }
 
 func (m *shadowMC) Protect(b []byte, f mcall.MemoryProtectionFlag) error {
+	m.adopt(b)
 	ok := m.next()
 	m.events = append(m.events, memEvent{10 + protCode(f), ok, m.dirty(b)})
 	if !ok {
@@ -166,22 +182,25 @@ func (m *shadowMC) rand(b []byte) (int, error) {
 }
 
 type memOp struct {
-	K     string `json:"k"` // new, random, with, close, isclosed
+	K     string `json:"k"` // new, random, with, close, isclosed, withclose (Close arrives while a reader is inside)
 	Size  int    `json:"size,omitempty"`
 	Depth int    `json:"depth,omitempty"`
 	Err   bool   `json:"err,omitempty"`
+	Panic bool   `json:"panic,omitempty"` // the innermost reader callback panics (recovered by the caller of WithBytes)
 	Plan  []int  `json:"plan,omitempty"`
 }
 
 type memObs struct {
-	R       int        `json:"r"` // 0 ok 1 err 2 closed 3 invalid
-	Ev      []memEvent `json:"ev"`
-	Mapped  bool       `json:"mapped"`
-	Locked  bool       `json:"locked"`
-	Prot    int        `json:"prot"`
-	Counter int        `json:"counter"` // readers inside after the op (always 0 between sequential ops)
-	Seen    bool       `json:"seen"`    // every callback saw the original bytes
-	InUse   int64      `json:"inuse"`
+	R        int        `json:"r"` // 0 ok 1 err 2 closed 3 invalid
+	Ev       []memEvent `json:"ev"`
+	Mapped   bool       `json:"mapped"`
+	Locked   bool       `json:"locked"`
+	Prot     int        `json:"prot"`
+	Counter  int        `json:"counter"` // readers inside after the op (always 0 between sequential ops)
+	Seen     bool       `json:"seen"`    // every callback saw the original bytes
+	InUse    int64      `json:"inuse"`
+	ClosedOK bool       `json:"closed_ok,omitempty"` // withclose: the concurrent Close returned nil
+	Msg      string     `json:"msg,omitempty"`       // error text of a failed access
 }
 
 type memCase struct {
@@ -204,6 +223,7 @@ func runMemCase(c *memCase) {
 	mgf := memguard.NewSecretFactoryWithMemcall(mc)
 	base := securememory.InUseCounter.Count()
 	created, closedOK := int64(0), int64(0)
+	faulted := false // some primitive has been made to fail in this case
 	for i, op := range c.Ops {
 		mc.calls, mc.events, mc.plan = 0, nil, map[int]bool{}
 		for _, p := range op.Plan {
@@ -257,7 +277,7 @@ func runMemCase(c *memCase) {
 				var nest func(d int) error
 				nest = func(d int) error {
 					body := func(b []byte) error {
-						if r := mc.reg(b); c.Impl != "memguard" && (r == nil || !r.mapped || r.prot == 0) {
+						if r := mc.reg(b); r == nil || !r.mapped || r.prot == 0 {
 							ob.Seen = false
 						}
 						if !dirty(b) {
@@ -265,6 +285,9 @@ func runMemCase(c *memCase) {
 						}
 						if d > 0 {
 							return nest(d - 1)
+						}
+						if op.Panic {
+							panic("reader callback panics")
 						}
 						if op.Err {
 							return errors.New("action failed")
@@ -277,7 +300,20 @@ func runMemCase(c *memCase) {
 					}
 					return sec.WithBytes(body)
 				}
-				err := nest(op.Depth)
+				err := func() (err error) {
+					defer func() {
+						if r := recover(); r != nil {
+							if !op.Panic {
+								panic(r)
+							}
+							err = errors.New("reader callback panicked")
+						}
+					}()
+					return nest(op.Depth)
+				}()
+				if err != nil {
+					ob.Msg = err.Error()
+				}
 				switch {
 				case err == nil:
 				case isClosedErr(err):
@@ -296,6 +332,46 @@ func runMemCase(c *memCase) {
 					}
 				} else if !wasClosed(c, i) {
 					closedOK++
+				}
+			case "withclose":
+				// Close is called while a reader is inside and parks until the reader leaves; the reader's release (or its access, or
+				// the Close itself) may hit an injected fault.  Whatever fails, Close has to return once the reader has left.
+				if sec == nil {
+					ob.R = 1
+					return
+				}
+				closeDone := make(chan error, 1)
+				entered := false
+				rerr := sec.WithBytes(func(b []byte) error {
+					entered = true
+					if !dirty(b) {
+						ob.Seen = false
+					}
+					go func() { closeDone <- sec.Close() }()
+					time.Sleep(15 * time.Millisecond) // let Close take the lock, mark the secret closing and wait for this reader
+					return nil
+				})
+				if !entered {
+					go func() { closeDone <- sec.Close() }()
+				}
+				select {
+				case cerr := <-closeDone:
+					switch {
+					case cerr != nil:
+						ob.R = 1
+					case !wasClosed(c, i):
+						ob.ClosedOK = true
+						closedOK++
+					}
+				case <-time.After(2 * time.Second):
+					viol("op %d: a Close that was waiting for the last reader never returned although the reader has left (reader's result: %v)", i, rerr)
+					ob.R = 1
+				}
+				if rerr != nil && ob.R == 0 {
+					ob.R = 1
+					if isClosedErr(rerr) {
+						ob.R = 2
+					}
 				}
 			case "isclosed":
 				if sec != nil && sec.IsClosed() {
@@ -330,6 +406,12 @@ func runMemCase(c *memCase) {
 		if !ob.Seen {
 			viol("op %d: a reader callback did not see the original bytes in readable pages", i)
 		}
+		if len(op.Plan) > 0 {
+			faulted = true
+		}
+		if !faulted && mc.last != nil && mc.last.mapped && mc.last.prot != 0 {
+			viol("op %d (%s): no reader callback is running and no primitive has failed, but the secret's pages are left accessible (protection %d)", i, op.K, mc.last.prot)
+		}
 		c.Obs = append(c.Obs, ob)
 	}
 }
@@ -339,7 +421,7 @@ var memStuck int
 
 func wasClosed(c *memCase, upto int) bool {
 	for j := 0; j < upto && j < len(c.Obs); j++ {
-		if c.Ops[j].K == "close" && c.Obs[j].R == 0 {
+		if c.Ops[j].K == "close" && c.Obs[j].R == 0 || c.Obs[j].ClosedOK {
 			return true
 		}
 	}
@@ -369,7 +451,7 @@ func max1(n int) int {
 	return n
 }
 
-func genMemCase(r *gen.Rand, impl string, faulty bool) *memCase {
+func genMemCase(r *gen.Rand, impl string, faulty bool, conc bool) *memCase {
 	c := &memCase{Impl: impl}
 	plan := func(n int) []int {
 		if !faulty || !r.Chance(1, 2) {
@@ -398,12 +480,19 @@ func genMemCase(r *gen.Rand, impl string, faulty bool) *memCase {
 	for i := 0; i < n; i++ {
 		switch r.Intn(10) {
 		case 0, 1, 2, 3, 4:
-			c.Ops = append(c.Ops, memOp{K: "with", Depth: r.Intn(3), Err: r.Chance(1, 4), Plan: plan(3)})
+			c.Ops = append(c.Ops, memOp{K: "with", Depth: r.Intn(3), Err: r.Chance(1, 4), Panic: r.Chance(1, 8), Plan: plan(3)})
 		case 5, 6:
 			c.Ops = append(c.Ops, memOp{K: "close", Plan: plan(3)})
 		default:
 			c.Ops = append(c.Ops, memOp{K: "isclosed"})
 		}
+	}
+	if conc {
+		var p []int
+		if faulty {
+			p = gen.Pick(r, [][]int{{1}, {1}, {1}, {0}, {2}, {1, 2}, nil})
+		}
+		c.Ops = append(c.Ops, memOp{K: "withclose", Plan: p})
 	}
 	c.Ops = append(c.Ops, memOp{K: "close"}, memOp{K: "with"}, memOp{K: "isclosed"})
 	return c
@@ -458,7 +547,8 @@ func runMem(a *args) error {
 		if i%3 == 2 {
 			impl = "memguard"
 		}
-		c := genMemCase(r, impl, faulty)
+		// one case in fifteen ends with a Close that arrives while a reader is inside
+		c := genMemCase(r, impl, faulty, i%15 == 7 || i%15 == 8)
 		if memStuck >= 3 {
 			break
 		}
